@@ -1119,4 +1119,68 @@ def teCfgFp {p : Nat} (a d : Fp p) (r : Nat) : TECfg (Fp p) where
   d := d
   inSubgroup := fun P => teSmul a d r P == TEAff.zero
 
+/-! ## Flag constants, flags from a coordinate, `AffineRepr::from_random_bytes`
+
+    /repo/ec/src/models/short_weierstrass/serialization_flags.rs   `SWFlags::{default, infinity, from_y_coordinate}`
+    /repo/ec/src/models/twisted_edwards/serialization_flags.rs     `TEFlags::{default, from_x_coordinate}` (= `teFlagsFromX`)
+    /repo/ec/src/models/short_weierstrass/affine.rs                `<Affine as AffineRepr>::from_random_bytes`
+    /repo/ec/src/models/twisted_edwards/affine.rs                  `<Affine as AffineRepr>::from_random_bytes` -/
+
+/-- `impl Default for SWFlags`: `Self::YIsNegative` (sic: the variant whose mask is `1 << 7`) -/
+def SWFlags.dflt : SWFlags := .yIsNegative
+
+/-- `SWFlags::infinity()` -/
+def SWFlags.infinityFlag : SWFlags := .pointAtInfinity
+
+/-- `impl Default for TEFlags`: `Self::XIsPositive` -/
+def TEFlags.dflt : TEFlags := .xIsPositive
+
+section fromRandomBytes
+variable {F : Type} [Add F] [Sub F] [Mul F] [Neg F] [Zero F] [One F] [Inv F] [DecidableEq F]
+
+/-- `SWFlags::from_y_coordinate(y)`: `if y <= -y { YIsPositive } else { YIsNegative }` -/
+def swFlagsFromY (K : Codec F) (y : F) : SWFlags :=
+  if K.le y (-y) then .yIsPositive else .yIsNegative
+
+/-- `<short_weierstrass::Affine<P> as AffineRepr>::from_random_bytes(bytes)`.
+    `frb` is `P::BaseField::from_random_bytes_with_flags::<Fl>` (not part of `Codec`):
+    `fpFromRandomBytesFlags c Fl` for a prime field, `fp2FromRandomBytesFlags c β Fl` for `Fp2`.
+    Branch by branch: `None` from the field ⇒ `None`; `x.is_zero() && flags.is_infinity()` ⇒ the identity;
+    `flags.is_positive() = Some(y_is_positive)` ⇒ `get_point_from_x_unchecked(x, y_is_positive)`
+    (NB `greatest = y_is_positive`: the LARGER root for the flag `YIsPositive`); otherwise
+    (infinity flag on a non-zero `x`) `None`. -/
+def swFromRandomBytes (K : Codec F) (E : SWCfg F)
+    (frb : (Fl : Type) → [Flags Fl] → List Nat → Outcome (Option (F × Fl))) (bytes : List Nat) :
+    Outcome (Option (SWAff F)) :=
+  match frb SWFlags bytes with
+  | .panic => .panic
+  | .ok none => .ok none
+  | .ok (some (x, flags)) =>
+    if x = 0 ∧ flags.isInfinity = true then .ok (some SWAff.identity)
+    else match flags.isPositive with
+      | some yIsPositive => .ok (swGetPointFromX K E x yIsPositive)
+      | none => .ok none
+
+/-- `<twisted_edwards::Affine<P> as AffineRepr>::from_random_bytes(bytes)`:
+    `from_random_bytes_with_flags::<TEFlags>(bytes).and_then(|(y, flags)| get_point_from_y_unchecked(y, flags.is_negative()))` -/
+def teFromRandomBytes (K : Codec F) (E : TECfg F)
+    (frb : (Fl : Type) → [Flags Fl] → List Nat → Outcome (Option (F × Fl))) (bytes : List Nat) :
+    Outcome (Option (TEAff F)) :=
+  match frb TEFlags bytes with
+  | .panic => .panic
+  | .ok none => .ok none
+  | .ok (some (y, flags)) => .ok (teGetPointFromY K E y flags.isNegative)
+
+end fromRandomBytes
+
+/-- `Fp2::from_random_bytes_with_flags::<Fl>` (the quadratic-extension template over a prime field)
+    with the result as the spec-level `Fp2` -/
+def fp2FromRandomBytesFlags (c : FpCfg) (β : Nat) (Fl : Type) [Flags Fl] (bytes : List Nat) :
+    Outcome (Option (Fp2 c.p β × Fl)) :=
+  match extFromRandomBytesFlags c Fl (.quad .base) bytes with
+  | .panic => .panic
+  | .ok none => .ok none
+  | .ok (some (.quad (.base a) (.base b), fl)) => .ok (some (⟨a, b⟩, fl))
+  | .ok (some _) => .panic
+
 end Ark.Bytes
